@@ -2,8 +2,10 @@
 // (attributes and blocks as hclsyntax/spec.md "Structural Elements" defines
 // them), a reference unescaper for StringLit labels, and a renderer that
 // produces the canonical source text of a tree plus every legal layout
-// deviation (indentation, blank lines, comments in every legal slot, spacing
-// of gaps, CRLF, missing final newline, BOM).
+// deviation (indentation with spaces, tabs and mixes, blank lines, trailing
+// blanks, comments in every legal slot, spacing of gaps, blanks before and
+// after the closing marker of a heredoc and before the body line of a flush
+// heredoc, CRLF, missing final newline, BOM).
 //
 // Nothing in this package calls the code under test.
 package bodytree
